@@ -45,7 +45,8 @@ def BOUND(tier):
     if tier == "quick":
         return {"trees": "plane trees <= 4 nodes (elec family: every distribution of 3 sets on <= 3 nodes, one set per node + dummy placements on 4 nodes); eph family on <= 3 nodes",
                 "depth": 2, "sectors": "all"}
-    return {"trees": "plane trees <= 5 nodes, every distribution of 3 and 4 basis sets on <= 4 nodes", "depth": 3, "sectors": "all"}
+    return {"trees": "plane trees <= 5 nodes (elec, 3 sets), <= 4 nodes (eph, two-component; 4 sets on 1, 2, 4 nodes), every distribution of the basis sets",
+            "depth": 2, "sectors": "all"}
 
 
 FAMS = {"elec3": ("elec", 3), "eph3": ("eph", 3), "elec4": ("elec", 4), "two3": ("two", 3)}
@@ -59,6 +60,8 @@ def cases(tier, seed):
         for N in range(1, Nmax + 1):
             if quick and famname != "elec3" and N > 3:
                 continue
+            if not quick and ((famname in ("eph3", "two3") and N > 4) or (famname == "elec4" and N == 3)):
+                continue      # thorough budget: five-node trees for the one-component electron family only; four basis sets on 1, 2 and 4 nodes
             for parent in plane_trees(N):
                 dists = list(TR.distributions(m, N))
                 if N >= 4:
